@@ -15,9 +15,17 @@ Workloads: one shard per shipped code, error-set generators over (n, d, z-weight
 through both paths of knill_laflamme_inner_product (incl. VarQEC / VarQECUnitary as realistic callers), the parser on all
 strings n<=3 and random strings in both notations; thorough adds the 11-qubit code, the 8-qubit enumerators, larger grids and
 the repository's tests/test_qec.py under the monitors.
+Shard 'secondary' (both tiers): the less prominent entry points (parse_str_qecc and its consumer chain, knill_laflamme_loss, degeneracy,
+hf_split_element, VarQEC.get_code / VarQECUnitary.get_code, QECCEqualModel, quantum_weight_enumerator(use_tqdm) and random small codes of
+every K), numerical regimes (states scaled 1e-100..1e6, operators 1e-9..1e7, one zero / tiny code word in the batch, Z-weights next to
+1, 1.5, 2, non-dyadic ones and numpy scalar types, ansatz angles up to |20| and ~1e-7), shapes (n=1, K=8, all six orders of a qubit triple),
+torch evaluation modes (plain / requires_grad / no_grad / frozen parameters / non-contiguous) and object lifecycles (deepcopy with new
+parameters, original afterwards, in-place update, load_state_dict into a sibling, two code descriptions that must not share circuits).
 """
 import collections
 import contextlib
+import copy
+import fractions
 import importlib.util
 import itertools
 import math
@@ -49,6 +57,8 @@ RULE = ('cases are (a) (code, Pauli error E) for every E of weight 1..d-1 of eve
         'output form) for the parser (non-trivial: a non-identity letter), (f) (code words digest) for the enumerators; '
         '(g) (order name, position, code, code generated just before) for the generation histories of the sequence shard: several '
         'shipped codes generated one after the other in ONE process (non-trivial: another generation preceded it); '
+        '(h) secondary shard: (entry point, sizes, numerical regime / number type / lifecycle step, input content) for the less prominent entry '
+        'points, magnitudes, torch modes and object lifecycles (non-trivial: a non-empty reference set / a non-zero input); '
         'distinct by digest of those tuples')
 EXHAUSTIVE = {'quick': True, 'thorough': True}
 EXHAUSTIVE_DOMAINS = {
@@ -73,6 +83,13 @@ ASSUMPTIONS = [
     'rule is the documented one, 0 < n_x+n_y+c_z n_z < d; z-weights are dyadic so the bound is exact in floating point',
     'enumerators in the normalisation A_w = K^-2 sum |tr(E P)|^2, B_w = K^-1 sum tr(E P E^dag P), weights 1..n returned; sum rules '
     '1+sum A = 2^n/K, 1+sum B = 2^n K, A_w <= B_w, A_w = B_w for w<d are derived from that definition in vmon/ref/qecc.py',
+    'knill_laflamme_inner_product is additionally judged relative to the a-priori bound max_i|c_i|^2 prod||op||_2 computed from the INPUT (1e-11 x '
+    'bound; honest rounding observed: <= 1e-15 x bound), knill_laflamme_loss relative to sum h|M_ij| of its input (1e-11; observed 4e-16): tiny '
+    'and huge magnitudes are judged as sharply as ordinary ones; the loss is modelled as sum_E [sum_(i<j) h|M_ij| + sum_i h|M_ii - mean_i M_ii|]',
+    'asymmetric error sets with a Z-weight for which some n_x+n_y+c_z n_z lies within 1e-13 of the bound without being equal to it (exact '
+    'rational arithmetic on the float that was passed) are inconclusive: the answer is decided by rounding (1/3, 2/3, 0.1 hit this)',
+    'VarQEC.get_code() is compared with the reference simulation of the gate arrays of an ansatz built (before the index shift) from the angles the '
+    'module holds; parameter rows are in gate order per gate name',
     'make_asymmetric_error_set / make_error_list are also driven with num_qubit < distance (corner workload: no ((n,K,d)) code has d > n, the '
     'documented rule is applied unchanged; a miss there has its own key error-set/asymmetric/missing-full-xy-support-when-n<d)',
 ]
@@ -97,10 +114,19 @@ P_STAB = 'reference/stabilizer-circuit==listed-pauli'
 P_FIX = 'reference/listed-pauli-fixes-codeword'
 P_TORCH = 'relation/kl-inner-product-torch==numpy'
 P_HIST = 'history/code-regenerated-in-same-process'
-DECIDING = [P_PARSE, P_GEN, P_NP, P_CHK, P_KLIP, P_EL, P_AS, P_QWE, P_KL, P_STAB, P_FIX, P_TORCH, P_HIST]
+P_LOSS = 'numqi.qec.knill_laflamme_loss'
+P_NAME = 'numqi.qec.parse_str_qecc'
+P_DEG = 'numqi.qec.degeneracy'
+P_SPLIT = 'numqi.qec._internal.hf_split_element'
+P_GETCODE = 'relation/get_code==reference-simulation-of-own-parameters'
+P_LIFE = 'history/copied-updated-or-sibling-object'
+P_MODES = 'relation/torch-evaluation-modes-same-value'
+DECIDING = [P_PARSE, P_GEN, P_NP, P_CHK, P_KLIP, P_EL, P_AS, P_QWE, P_KL, P_STAB, P_FIX, P_TORCH, P_HIST,
+            P_LOSS, P_NAME, P_DEG, P_SPLIT, P_GETCODE, P_LIFE, P_MODES]
 
 TOL = 1e-9
 TOL_CIRCUIT = 1e-12
+TOL_REL = 1e-11   # relative to an a-priori bound computed from the INPUT (sum of <= 2^11 products: honest rounding stays below 1e-13)
 ZW_QUICK = [0.5, 1, 1.5, 2, 3]
 ZW_THOROUGH = [0.25, 0.5, 0.75, 1, 1.5, 2, 2.5, 3, 4]
 
@@ -108,11 +134,12 @@ ZW_THOROUGH = [0.25, 0.5, 0.75, 1, 1.5, 2, 2.5, 3, 4]
 def shards(tier, seed):
     ret = [{'name': f'code-{t}', 'code': t} for t in QUICK_CODES]
     if tier == 'quick':
-        ret += [{'name': 'errorsets', 'part': 0, 'nparts': 1}, {'name': 'klip', 'reps': 40}, {'name': 'parser'}, {'name': 'sequence'}]
+        ret += [{'name': 'errorsets', 'part': 0, 'nparts': 1}, {'name': 'klip', 'reps': 40}, {'name': 'parser'}, {'name': 'sequence'},
+                {'name': 'secondary', 'reps': 1}]
     else:
         ret += [{'name': 'code-11_2_5', 'code': '11_2_5'}, {'name': 'enum-883', 'code': '883'}, {'name': 'enum-8_64_2', 'code': '8_64_2'}]
         ret += [{'name': f'errorsets-{i}', 'part': i, 'nparts': 3} for i in range(3)]
-        ret += [{'name': 'klip', 'reps': 400}, {'name': 'parser'}, {'name': 'repo-tests'}, {'name': 'sequence'}]
+        ret += [{'name': 'klip', 'reps': 400}, {'name': 'parser'}, {'name': 'repo-tests'}, {'name': 'sequence'}, {'name': 'secondary', 'reps': 6}]
     # longest shards first (matters only when fewer workers than shards)
     first = ['enum-8_64_2', 'code-11_2_5', 'enum-883', 'parser', 'repo-tests', 'sequence', 'code-10_4_4']
     ret.sort(key=lambda sh: first.index(sh['name']) if sh['name'] in first else len(first))
@@ -218,6 +245,7 @@ class Mon:
         self.circuits_ok = set()  # (listed letters, gate program) pairs whose full unitary was compared and passed
         self.generations = []   # history of generate_code_np calls on shipped encoders in this process: (tag, verdict)
         self.first_words = {}   # tag -> code words of the first orthonormal generation in this process
+        self.last_klip = None   # (backend, code words, number of sequences) of the latest knill_laflamme_inner_product call
         ctx.extra.setdefault('codes', {})
         ctx.extra.setdefault('worst', {})
 
@@ -509,8 +537,22 @@ class Mon:
                 q1 = rq.apply_op(q1, to_numpy(op), list(ind))
             ref[i] = qc @ q1.T
         scale = 1.0 + (float(np.abs(ref).max()) if ref.size else 0.0)
+        self.last_klip = (backend, q.copy(), len(ops))
         if res.shape == ref.shape and ref.size:
             self.worst(f'kl_inner_product_{backend}_err_over_scale', float(np.abs(res - ref).max()) / scale)
+            # every entry is bounded a priori by max_i|c_i|^2 prod||op||_2 (computed from the input): rounding is relative to THAT,
+            # so inputs of tiny / huge magnitude are judged as sharply as ordinary ones
+            bound = rq.klip_bound(q, ops)
+            dev = np.abs(res - ref).reshape(len(ops), -1).max(axis=1)
+            with np.errstate(all='ignore'):
+                ratio = np.where(bound > 0, dev / np.where(bound > 0, bound, 1.0), np.where(dev > 0, np.inf, 0.0))
+            worst = float(ratio.max())
+            self.worst(f'kl_inner_product_{backend}_err_over_input_bound', worst if worst <= TOL_REL else 0.0)
+            ctx.check(bool(np.all(np.isfinite(res))) and worst <= TOL_REL, f'kl-inner-product/value-relative-to-input-scale/{backend}',
+                      f'knill_laflamme_inner_product ({backend} path) differs from the reference by more than 1e-11 x (max|c_i|^2 prod||op||_2)',
+                      lambda: {'backend': backend, 'K': k, 'dim': q.shape[1], 'n_sequences': len(ops), 'worst_sequence': int(np.argmax(ratio)),
+                               'err_over_bound': worst, 'bound_of_that_sequence': float(bound[int(np.argmax(ratio))]),
+                               'max_abs_state': float(np.abs(q).max())})
         ctx.close(res, ref, TOL * scale, f'kl-inner-product/value/{backend}',
                   f'knill_laflamme_inner_product ({backend} path) differs from <c_i| E |c_j> of the reference',
                   lambda: {'backend': backend, 'K': k, 'dim': q.shape[1], 'n_sequences': len(ops),
@@ -573,6 +615,10 @@ class Mon:
             ctx.inconclusive('asymmetric error set for n>7: reference filter over 4^n strings not run')
             return
         got = [seq_to_letters(e, n) for e in c.result]
+        fz = fractions.Fraction(float(cz))  # the exact value of the float that was passed
+        if any(0 < abs(a + fz * b - d) < fractions.Fraction(1, 10**13) for a in range(n + 1) for b in range(n + 1 - a)):
+            ctx.inconclusive('asymmetric error set: n_x+n_y+c_z n_z within 1e-13 of the bound without being equal (decided by rounding)')
+            return
         ref = rq.asymmetric_errors(n, d, float(cz))
 
         def missing_key(missing):
@@ -621,6 +667,68 @@ class Mon:
             ctx.inconclusive('enumerator values not compared with the reference (n above the reference limit of this tier); sum rules were')
         ctx.extra.setdefault('enumerators', {})[label] = {'A': [round(float(x), 9) for x in a], 'B': [round(float(x), 9) for x in b]}
 
+    # ------------------------------------------------------------ KL loss
+    def post_loss(self, c):
+        if c.exc is not None:
+            return
+        ctx = self.ctx
+        ip0 = c.arg(0, 'inner_product')
+        kind = c.arg(1, 'kind', 'L2')
+        backend = 'torch' if is_torch(ip0) else 'numpy'
+        ip = to_numpy(ip0)
+        if ip.ndim != 3 or ip.shape[1] != ip.shape[2] or kind not in ('L1', 'L2'):
+            return
+        try:
+            got = complex(to_numpy(c.result).reshape(()))
+        except Exception:
+            ctx.check(False, f'kl-loss/not-a-scalar/{backend}', 'knill_laflamme_loss did not return a scalar', {'got': repr(c.result)[:100]})
+            return
+        want, scale = rq.kl_loss(ip, kind)
+        tol = TOL_REL * scale
+        dev = abs(got - want)
+        ok = bool(np.isfinite(dev)) and dev <= tol and abs(got.imag) == 0
+        self.worst(f'kl_loss_{backend}_{kind}_err_over_scale', dev / scale if (scale > 0 and ok) else 0.0)
+        ctx.check(ok, f'kl-loss/value/{backend}/{kind}',
+                  f'knill_laflamme_loss ({backend}, {kind}) differs from sum_E [sum_(i<j) h|M_ij| + sum_i h|M_ii - mean|] of the reference '
+                  '(tolerance 1e-11 x sum h|M_ij| of the input)',
+                  lambda: {'backend': backend, 'kind': kind, 'shape': list(ip.shape), 'got': got, 'want': want, 'input_scale': scale,
+                           'max_abs_entry': float(np.abs(ip).max()) if ip.size else 0.0})
+
+    # ------------------------------------------------------------ code-name parser
+    def post_name(self, c):
+        if c.exc is not None:
+            return
+        ctx = self.ctx
+        text = c.arg(0, 'str_qecc')
+        try:
+            n, k, w, d = rq.parse_code_name(text)
+        except (ValueError, TypeError):
+            return
+        res = c.result
+        ok = isinstance(res, dict) and all(key in res for key in ('num_qubit', 'num_logical_dim', 'weight_z', 'distance'))
+        if not ctx.check(ok, 'code-name/malformed', 'parse_str_qecc must return num_qubit, num_logical_dim, weight_z, distance', {'name': text, 'got': repr(res)[:200]}):
+            return
+        got = (res['num_qubit'], res['num_logical_dim'], res['weight_z'], res['distance'])
+        same = got[0] == n and got[1] == k and got[3] == d and ((w is None and got[2] is None) or (w is not None and got[2] is not None and float(got[2]) == w))
+        ints = all(isinstance(x, (int, np.integer)) and not isinstance(x, bool) for x in (got[0], got[1], got[3]))
+        ctx.check(same and ints, 'code-name/parameters', "parse_str_qecc does not return the (n, K, weight_z, d) written in the name",
+                  {'name': text, 'got': repr(got), 'want': repr((n, k, w, d))})
+
+    # ------------------------------------------------------------ degeneracy
+    def post_degeneracy(self, c):
+        if c.exc is not None:
+            return
+        ctx = self.ctx
+        st = np.asarray(c.arg(0, 'code_i'))
+        if st.ndim != 1:
+            return
+        want = rq.degeneracy_spectrum(st)
+        res = np.sort(np.asarray(c.result, dtype=np.float64).reshape(-1))
+        nrm = float(np.vdot(st, st).real)
+        ctx.close(res, want, TOL * (1 + nrm) * len(want), 'degeneracy/spectrum',
+                  'degeneracy() differs from the spectrum of the Gram matrix of {E|c>: E identity or weight-1 Pauli} of the reference',
+                  {'n': rq.num_qubit_of(st.shape[0]), 'norm2': nrm})
+
 
 def install(ctx, numqi):
     mon = Mon(ctx, numqi)
@@ -635,6 +743,9 @@ def install(ctx, numqi):
     ctx.attach(I, 'make_error_list', post=mon.post_error_list, point=P_EL)
     ctx.attach(I, 'make_asymmetric_error_set', post=mon.post_asym, point=P_AS)
     ctx.attach(I, 'quantum_weight_enumerator', post=mon.post_qwe, point=P_QWE)
+    ctx.attach(numqi.qec._varqec, 'knill_laflamme_loss', post=mon.post_loss, point=P_LOSS)
+    ctx.attach(Q, 'parse_str_qecc', post=mon.post_name, point=P_NAME)
+    ctx.attach(I, 'degeneracy', post=mon.post_degeneracy, point=P_DEG)
     return mon
 
 
@@ -655,6 +766,14 @@ def run_code(ctx, numqi, torch, mon, tag, enumerator):
         ctx.close(ip_t, ip, 1e-12, 'kl-inner-product/torch!=numpy', 'torch and numpy paths of knill_laflamme_inner_product disagree',
                   {'code': tag, 'n_errors': len(errs)}, point=P_TORCH)
         ctx.case('klip-code', tag, 'numpy+torch')
+        # the library's own Knill-Laflamme loss of a shipped code with its own error list must vanish (value itself judged by post_loss)
+        for kind in ('L2', 'L1'):
+            lv = float(qec.knill_laflamme_loss(ip, kind))
+            lt = float(qec.knill_laflamme_loss(ip_t, kind))
+            ctx.check(bool(np.isfinite(lv)) and abs(lv) <= TOL * len(errs) * k * k, f'knill-laflamme/loss-not-zero/{kind}/' + tag,
+                      'knill_laflamme_loss of a shipped code with every error below its distance is not zero', {'code': tag, 'kind': kind, 'loss': lv})
+            ctx.check(abs(lt - lv) <= TOL * len(errs) * k * k, f'kl-loss/torch!=numpy/{kind}', 'torch and numpy paths of knill_laflamme_loss disagree',
+                      {'code': tag, 'kind': kind, 'numpy': lv, 'torch': lt}, point=P_TORCH)
         if enumerator:
             qec.quantum_weight_enumerator(code)
             ctx.case('enumerator', tag)
@@ -919,6 +1038,385 @@ def run_sequence(ctx, numqi, mon):
                 'note': 'all generations happen in one process; each is judged by the generate_code_np postcondition'})
 
 
+def build_ansatz_from(numqi, num_qubit, u3_args, cu3_args):
+    """same layout as build_ansatz, angles given per gate (rows in gate order)"""
+    circ = numqi.sim.Circuit(default_requires_grad=True)
+    depth = len(u3_args) // num_qubit
+    for lay in range(depth):
+        for x in range(num_qubit):
+            circ.u3(x, args=tuple(float(a) for a in u3_args[lay * num_qubit + x]))
+        for x in range(num_qubit):
+            circ.cu3(x, (x + 1) % num_qubit, args=tuple(float(a) for a in cu3_args[lay * num_qubit + x]))
+    return circ
+
+
+def reference_code_of_circuit(circ, k):
+    """code words |i> -> circuit|i>, i<k, by the reference simulator from the gate arrays the circuit holds NOW"""
+    prog, n = gate_program(circ)
+    if prog is None:
+        raise RuntimeError('ansatz holds a gate the reference simulator cannot run')
+    basis = np.zeros((k, 2**n), dtype=np.complex128)
+    basis[np.arange(k), np.arange(k)] = 1
+    return rq.run_gate_list(prog, n, basis), n
+
+
+def run_secondary(ctx, numqi, torch, mon, shard):
+    """less prominent entry points, numerical / shape regimes, torch evaluation modes and object lifecycles (lesson 3)"""
+    qec = numqi.qec
+    I = numqi.qec._internal
+    rng = ctx.rng
+    reps = int(shard.get('reps', 1))
+    paulis = {'X': numqi.gate.X, 'Y': numqi.gate.Y, 'Z': numqi.gate.Z}
+
+    def randc(*shape):
+        return rng.normal(size=shape) + 1j * rng.normal(size=shape)
+
+    def ortho(k, dim):
+        return np.linalg.qr(randc(dim, k))[0].T.copy()
+
+    # ---------------------------------------------------------------- (d) code-name parser, and its consumer chain
+    ctx.workload('corner')
+    names = [CODES[t]['n'] and f"(({CODES[t]['n']},{CODES[t]['K']},{CODES[t]['d']}))" for t in CODES]
+    names += ['((6,2,de(2)=4))', '((6,2,de(1.5)=4))', '((7,2,de(0.5)=3))', '((12,16,de(2.5)=10))', '((100,1024,12))', '((4,2,de(3)=2))',
+              '((5,6,de(0.25)=2))', '((16,256,de(10)=11))']
+    for text in names:
+        ctx.set_case({'op': 'parse_str_qecc', 'name': text})
+        ctx.case('code-name', text)
+        with ctx.guard('parse_str_qecc'):
+            r = qec.parse_str_qecc(text)
+            if isinstance(r, dict) and r.get('weight_z') is not None and r['num_qubit'] <= 6:
+                qec.make_asymmetric_error_set(r['num_qubit'], r['distance'], r['weight_z'])  # judged by post_asym
+            elif isinstance(r, dict) and r.get('weight_z') is None and r['num_qubit'] <= 6:
+                qec.make_error_list(r['num_qubit'], r['distance'])
+
+    # ---------------------------------------------------------------- (a) asymmetric Z-weights: number types and values next to special ones
+    zws = [0.3, 1.1, 0.7, 2.3, 1 - 1e-12, 1 + 1e-12, 2 - 1e-9, 1.5 + 1e-9, 1e-3, 1e-9, 100, 1e9, 2.0, np.float64(1.5), np.int64(2), np.float32(0.5),
+           np.float64(2.5), 1 / 3, 2 / 3, 0.1]
+    for n, d in [(1, 2), (2, 2), (3, 2), (3, 3), (4, 3), (2, 4), (4, 4), (5, 3), (6, 2)] + ([(5, 4), (6, 3), (6, 4), (7, 3)] if ctx.tier == 'thorough' else []):
+        for cz in zws:
+            nref = len(rq.asymmetric_errors(n, d, float(cz)))
+            ctx.set_case({'op': 'make_asymmetric_error_set', 'n': n, 'd': d, 'weight_z': float(cz), 'weight_type': type(cz).__name__})
+            ctx.case('error-set', 'asym-regime', n, d, float(cz), type(cz).__name__, nontrivial=nref > 0)
+            with ctx.guard('make_asymmetric_error_set'):
+                qec.make_asymmetric_error_set(n, d, cz)
+
+    # ---------------------------------------------------------------- (d) the subset splitter behind the asymmetric sets
+    for n in range(0, 6):
+        labels = np.arange(n)
+        count_lists = [[a] for a in range(n + 1)] + [[a, b] for a in range(n + 1) for b in range(n + 1 - a)]
+        if n <= 4:
+            count_lists += [[a, b, c] for a in range(n + 1) for b in range(n + 1 - a) for c in range(n + 1 - a - b)]
+        if n == 4:
+            labels = np.array([7, 3, 5, 1])
+        for counts in count_lists:
+            ctx.set_case({'op': 'hf_split_element', 'labels': labels, 'num_of_each': counts})
+            ctx.case('split', labels, counts, nontrivial=sum(counts) > 0)
+            with ctx.guard('hf_split_element'):
+                got = list(I.hf_split_element(labels, counts))
+            want = rq.split_elements(labels.tolist(), counts)
+            try:
+                norm = [tuple(tuple(int(v) for v in part) for part in item) for item in got]
+            except (TypeError, ValueError):
+                norm = None
+            ok = norm is not None and collections.Counter(norm) == collections.Counter(want)
+            ctx.check(ok, 'error-set/split-element', 'hf_split_element does not give every choice of disjoint subsets of the requested sizes exactly once',
+                      {'labels': labels, 'num_of_each': counts, 'n_got': len(got), 'n_want': len(want)}, point=P_SPLIT)
+
+    # ---------------------------------------------------------------- (a)(c)(d) Knill-Laflamme loss: reference value, magnitudes, backends, modes
+    ctx.workload('random')
+    for it in range(24 * reps):
+        ne = int(rng.integers(1, 6))
+        k = int(rng.choice([1, 2, 3, 4, 8]))
+        content = ['complex', 'hermitian', 'kl-satisfied', 'one-zero-item', 'kl-satisfied-plus-tiny'][it % 5]
+        scale = [1.0, 1e-8, 1e-12, 1e5, 1e-6, 1.0][it % 6]
+        m = randc(ne, k, k)
+        if content == 'hermitian':
+            m = m + m.conj().transpose(0, 2, 1)
+        elif content == 'kl-satisfied':
+            m = randc(ne, 1, 1) * np.eye(k)
+        elif content == 'one-zero-item':
+            m[int(rng.integers(ne))] = 0
+        elif content == 'kl-satisfied-plus-tiny':
+            m = randc(ne, 1, 1) * np.eye(k) + 1e-7 * randc(ne, k, k)
+        m = m * scale
+        for kind in ('L1', 'L2'):
+            ctx.set_case({'op': 'knill_laflamme_loss', 'n_errors': ne, 'K': k, 'content': content, 'scale': scale, 'kind': kind})
+            ctx.case('kl-loss', ne, k, content, scale, kind, m)
+            with ctx.guard('knill_laflamme_loss'):
+                a = float(qec.knill_laflamme_loss(m, kind)) if not (kind == 'L2' and it % 2) else float(qec.knill_laflamme_loss(m))
+                _, sc = rq.kl_loss(m, kind)
+                vals = {}
+                vals['torch'] = qec.knill_laflamme_loss(torch.tensor(m), kind)
+                tg = torch.tensor(m, requires_grad=True)
+                vals['torch-requires-grad'] = qec.knill_laflamme_loss(tg, kind)
+                with torch.no_grad():
+                    vals['torch-no_grad'] = qec.knill_laflamme_loss(tg, kind)
+                for mode, v in vals.items():
+                    ctx.check(abs(float(v.detach()) - a) <= TOL_REL * sc, f'kl-loss/torch!=numpy/{kind}', 'torch and numpy paths of knill_laflamme_loss disagree',
+                              {'mode': mode, 'kind': kind, 'numpy': a, 'torch': float(v.detach()), 'input_scale': sc}, point=P_MODES)
+
+    # ---------------------------------------------------------------- (a)(b)(c) inner product: shapes, magnitudes, one degenerate item, torch modes
+    cases = []
+    for n, k in [(1, 1), (1, 2), (2, 4), (3, 8), (4, 8), (4, 2), (6, 2)]:
+        cases.append((n, k, 'ordinary', 1.0, 1.0))
+    cases += [(3, 2, 'tiny-state', 1e-8, 1.0), (4, 4, 'very-tiny-state', 1e-100, 1.0), (3, 2, 'huge-state', 1e6, 1.0), (3, 4, 'tiny-operators', 1.0, 1e-9),
+              (4, 2, 'tiny-state-huge-operators', 1e-7, 1e7), (3, 4, 'one-zero-codeword', 1.0, 1.0), (4, 2, 'one-tiny-codeword', 1.0, 1.0)]
+    for rep in range(reps):
+        for n, k, regime, sq, sop in cases:
+            q = (ortho(k, 2**n) if (rep + n) % 2 else randc(k, 2**n)) * sq
+            if regime == 'one-zero-codeword':
+                q[int(rng.integers(k))] = 0
+            if regime == 'one-tiny-codeword':
+                q[int(rng.integers(k))] *= 1e-9
+            seqs = [[]]
+            for pos in range(n):
+                seqs.append([([pos], paulis['XYZ'[pos % 3]])])
+            seqs.append([([int(rng.integers(n))], sop * randc(2, 2))])
+            seqs.append([([int(rng.integers(n))], np.zeros((2, 2), dtype=np.complex128))])  # the zero operator among ordinary ones
+            if n >= 2:
+                for a, b in [(0, n - 1), (n - 1, 0)]:
+                    seqs.append([([a, b], sop * randc(4, 4))])
+            if n >= 3:
+                tri = [int(v) for v in rng.choice(n, size=3, replace=False)]
+                op3 = sop * randc(8, 8)
+                for perm in itertools.permutations(range(3)):  # all six orders of the qubit triple, incl. the 3-cycles (1,2,0), (2,0,1)
+                    seqs.append([([tri[i] for i in perm], op3)])
+                seqs.append([([tri[1], tri[2], tri[0]], op3), ([tri[0]], paulis['Y']), ([tri[2], tri[0]], sop * randc(4, 4))])
+            ctx.set_case({'op': 'knill_laflamme_inner_product', 'n': n, 'K': k, 'regime': regime, 'state_scale': sq, 'operator_scale': sop,
+                          'n_sequences': len(seqs)})
+            ctx.case('klip-regime', n, k, regime, q, nontrivial=True)
+            with ctx.guard('knill_laflamme_inner_product'):
+                a = qec.knill_laflamme_inner_product(q, seqs)  # value judged by post_klip relative to the input bound
+                bound = rq.klip_bound(q, seqs).reshape(-1, 1, 1)
+                outs = {}
+                outs['plain'] = qec.knill_laflamme_inner_product(torch.tensor(q), seqs)
+                tg = torch.tensor(q, requires_grad=True)
+                outs['requires-grad'] = qec.knill_laflamme_inner_product(tg, seqs)
+                with torch.no_grad():
+                    outs['no_grad'] = qec.knill_laflamme_inner_product(tg, seqs)
+                outs['non-contiguous'] = qec.knill_laflamme_inner_product(torch.tensor(np.asfortranarray(q.T)).T, seqs)
+                an = np.asarray(a)
+                for mode, v in outs.items():
+                    vn = to_numpy(v)
+                    ok = vn.shape == an.shape and bool(np.all(np.abs(vn - an) <= TOL_REL * bound))
+                    ctx.check(ok, 'kl-inner-product/torch!=numpy', 'torch and numpy paths of knill_laflamme_inner_product disagree',
+                              {'n': n, 'K': k, 'regime': regime, 'torch_mode': mode}, point=P_MODES)
+
+    # ---------------------------------------------------------------- (b)(d) enumerators of small random codes (every K, complex words), use_tqdm option
+    ctx.workload('random')
+    enum_cases = [(1, 1), (1, 2), (2, 1), (2, 2), (2, 3), (2, 4), (3, 1), (3, 3), (3, 5), (3, 8), (4, 5)]
+    for n, k in enum_cases:
+        code = ortho(k, 2**n)
+        if (n + k) % 3 == 0:
+            code = np.linalg.qr(rng.normal(size=(2**n, k)))[0].T.astype(np.complex128).copy()  # real code words
+        ctx.set_case({'op': 'quantum_weight_enumerator', 'n': n, 'K': k, 'code': 'random orthonormal'})
+        ctx.case('enumerator-random', n, k, code)
+        with ctx.guard('quantum_weight_enumerator'):
+            r0 = qec.quantum_weight_enumerator(code)
+            if (n, k) in ((2, 2), (2, 3)):
+                with open(os.devnull, 'w') as sink, contextlib.redirect_stderr(sink):
+                    r1 = qec.quantum_weight_enumerator(code, use_tqdm=True)
+                same = all(np.shape(x) == np.shape(y) and np.array_equal(np.asarray(x), np.asarray(y)) for x, y in zip(r0, r1))
+                ctx.check(same, 'enumerator/use_tqdm-changes-value', 'quantum_weight_enumerator(use_tqdm=True) differs from use_tqdm=False', {'n': n, 'K': k})
+
+    # ---------------------------------------------------------------- (d) degeneracy: consumer of the error list and of the state simulator
+    ctx.workload('realistic')
+    with ctx.guard('degeneracy/523'):
+        desc = qec.generate_code523()
+        code523 = qec.generate_code_np(desc['encode'], 2)
+        for i in range(2):
+            ctx.set_case({'op': 'degeneracy', 'state': f'code word {i} of ((5,2,3))'})
+            ctx.case('degeneracy', '523', i)
+            ev = np.asarray(qec.degeneracy(code523[i]))
+            # ((5,2,3)) is non-degenerate: E_a^dag E_b has weight <= 2 < d, so the error states are orthonormal
+            ctx.check(ev.shape == (16,) and float(np.abs(ev - 1).max()) <= TOL * 16, 'degeneracy/523-not-all-ones',
+                      'degeneracy() of a ((5,2,3)) code word: the 16 error states (identity + weight 1) must be orthonormal', {'eigenvalues': ev})
+    for n in (1, 2, 3, 4):
+        st = randc(2**n)
+        st = st / np.linalg.norm(st) if n % 2 else st
+        ctx.set_case({'op': 'degeneracy', 'state': 'random', 'n': n})
+        ctx.case('degeneracy', n, st)
+        with ctx.guard('degeneracy'):
+            qec.degeneracy(st)
+    with ctx.guard('degeneracy'):
+        e0 = np.zeros(8, dtype=np.complex128)
+        e0[0] = 1
+        ctx.set_case({'op': 'degeneracy', 'state': '|000>'})
+        ctx.case('degeneracy', '000')
+        qec.degeneracy(e0)
+
+    # ---------------------------------------------------------------- (c)(d)(e) VarQEC: get_code, evaluation modes, copies, in-place updates
+    for rep in range(2 * reps):
+        nq = 3 + rep % 2
+        kk = [2, 3, 4, 1][rep % 4]
+        dist = 2
+        kind = ['L2', 'L1'][rep % 2]
+        nl = {1: 0, 2: 1, 3: 2, 4: 2}[kk]
+        th = [rng.uniform(-20, 20, size=(2 * nq, 3)) if rep % 2 else rng.uniform(0, 2 * np.pi, size=(2 * nq, 3)) for _ in range(8)]
+        if rep % 3 == 2:
+            th[0] = th[0] * 1e-7  # all angles tiny: the encoder is a rounding-level perturbation of the identity
+        errs = qec.make_error_list(nq, dist)
+
+        def ref_for(u3, cu3):
+            code, _ = reference_code_of_circuit(build_ansatz_from(numqi, nq, u3, cu3), kk)
+            lossv, sc = rq.kl_loss(rq.klip(code, errs), kind)
+            return code, lossv, sc
+
+        def set_params(model, u3, cu3):
+            with torch.no_grad():
+                model.circuit_torch.theta['u3'].copy_(torch.tensor(u3))
+                model.circuit_torch.theta['cu3'].copy_(torch.tensor(cu3))
+
+        def judge(model, u3, cu3, what, point):
+            code, lossv, sc = ref_for(u3, cu3)
+            ctx.close(model.get_code(), code, 1e-10, f'varqec/get_code/{what}', f'VarQEC.get_code() ({what}) is not the reference simulation of the ansatz with the '
+                      'parameters the module holds', {'n': nq, 'K': kk, 'what': what}, point=point)
+            tol = 1e-9 * (1 + sc)
+            lv = float(model().detach())
+            ctx.check(abs(lv - lossv) <= tol, f'varqec/loss/{what}', f'VarQEC() ({what}) is not the Knill-Laflamme loss of the reference code words',
+                      {'n': nq, 'K': kk, 'kind': kind, 'got': lv, 'want': lossv}, point=point)
+            return lv, tol
+
+        ctx.set_case({'op': 'VarQEC get_code / modes / lifecycle', 'n': nq, 'K': kk, 'loss': kind, 'rep': rep, 'angles': 'wide' if rep % 2 else '[0,2pi)'})
+        ctx.case('varqec-lifecycle', nq, kk, kind, th[0])
+        with ctx.guard('VarQEC/lifecycle'):
+            model = qec.VarQEC(build_ansatz_from(numqi, nq, th[0], th[1]), kk, errs, loss_type=kind)
+            lv, tol = judge(model, th[0], th[1], 'fresh', P_GETCODE)
+            # evaluation modes: autograd recording / no_grad / frozen parameters give the same value
+            with torch.no_grad():
+                l_ng = float(model())
+            for prm in model.parameters():
+                prm.requires_grad_(False)
+            l_fr = float(model())
+            for prm in model.parameters():
+                prm.requires_grad_(True)
+            l_bw = model()
+            l_bw.backward()
+            ctx.check(abs(l_ng - lv) <= tol and abs(l_fr - lv) <= tol and abs(float(l_bw.detach()) - lv) <= tol, 'varqec/loss-depends-on-evaluation-mode',
+                      'VarQEC() gives different values with autograd recording / under no_grad / with frozen parameters',
+                      {'autograd': lv, 'no_grad': l_ng, 'frozen': l_fr, 'autograd_again': float(l_bw.detach())}, point=P_MODES)
+            # deep copy, new parameters in the copy: the copy follows ITS parameters, the original keeps its own
+            twin = copy.deepcopy(model)
+            set_params(twin, th[2], th[3])
+            judge(twin, th[2], th[3], 'deepcopy-with-new-parameters', P_LIFE)
+            judge(model, th[0], th[1], 'original-after-copy-was-used', P_LIFE)
+            # in-place update, call again
+            set_params(model, th[4], th[5])
+            judge(model, th[4], th[5], 'after-in-place-update', P_LIFE)
+            judge(twin, th[2], th[3], 'copy-after-original-was-updated', P_LIFE)
+            # load_state_dict into a sibling built from other angles; two instances must not share state
+            sib = qec.VarQEC(build_ansatz_from(numqi, nq, th[6], th[7]), kk, errs, loss_type=kind)
+            judge(sib, th[6], th[7], 'sibling-fresh', P_LIFE)
+            sib.load_state_dict(twin.state_dict())
+            judge(sib, th[2], th[3], 'sibling-after-load_state_dict', P_LIFE)
+            judge(model, th[4], th[5], 'original-after-sibling-was-used', P_LIFE)
+
+    # ---------------------------------------------------------------- (c)(d)(e) VarQECUnitary: get_code vs the words handed to the inner product
+    for rep in range(2 * reps):
+        kk = [3, 2, 1, 4][rep % 4]
+        nq = 3
+        errs = qec.make_error_list(nq, 2)
+        ctx.set_case({'op': 'VarQECUnitary get_code / lifecycle', 'n': nq, 'K': kk, 'rep': rep})
+        ctx.case('varqecunitary-lifecycle', nq, kk, rep)
+        with ctx.guard('VarQECUnitary/lifecycle'):
+            model = qec.VarQECUnitary(nq, kk, errs)
+            with torch.no_grad():
+                next(model.parameters()).copy_(torch.tensor(rng.normal(size=tuple(next(model.parameters()).shape)) * (1e-7 if rep % 3 == 2 else 1.0)))
+            l0 = float(model().detach())
+            fed = mon.last_klip[1] if mon.last_klip else None
+            code = np.asarray(model.get_code())
+            ok_shape = code.shape == (kk, 2**nq)
+            ctx.check(ok_shape and fed is not None and fed.shape[1] == 2**nq and float(np.abs(fed[:kk] - code).max()) <= 1e-12, 'varqec-unitary/get_code',
+                      'VarQECUnitary.get_code() is not the first K rows of what forward() hands to knill_laflamme_inner_product', {'K': kk}, point=P_GETCODE)
+            if ok_shape:
+                gdev = float(np.abs(rq.gram(code) - np.eye(kk)).max())
+                ctx.check(gdev <= 1e-6, 'varqec-unitary/get_code-not-orthonormal', 'VarQECUnitary.get_code() rows are not orthonormal', {'K': kk, 'dev': gdev},
+                          point=P_GETCODE)
+                want, sc = rq.kl_loss(rq.klip(code, errs), 'L2')
+                ctx.check(abs(l0 - want) <= 1e-9 * (1 + sc), 'varqec-unitary/loss', 'VarQECUnitary() is not the Knill-Laflamme loss of get_code()',
+                          {'K': kk, 'got': l0, 'want': want}, point=P_GETCODE)
+                with torch.no_grad():
+                    l1 = float(model())
+                ctx.check(abs(l1 - l0) <= 1e-9 * (1 + sc), 'varqec-unitary/loss-depends-on-evaluation-mode', 'VarQECUnitary() differs under no_grad',
+                          {'autograd': l0, 'no_grad': l1}, point=P_MODES)
+                twin = copy.deepcopy(model)
+                with torch.no_grad():
+                    next(twin.parameters()).copy_(torch.tensor(rng.normal(size=tuple(next(twin.parameters()).shape))))
+                code_t = np.asarray(twin.get_code())
+                code_again = np.asarray(model.get_code())
+                ctx.check(code_again.shape == code.shape and float(np.abs(code_again - code).max()) <= 1e-12, 'varqec-unitary/original-changed-by-copy',
+                          'VarQECUnitary.get_code() of the original changed after its deep copy got new parameters', {'K': kk}, point=P_LIFE)
+                ctx.check(code_t.shape == code.shape and float(np.abs(code_t - code).max()) > 1e-6, 'varqec-unitary/copy-ignores-its-parameters',
+                          'deep copy of VarQECUnitary with new parameters still returns the code of the original', {'K': kk}, point=P_LIFE)
+
+    # ---------------------------------------------------------------- (d) QECCEqualModel: local-unitary equivalence loss against own application
+    for rep in range(2 * reps):
+        nq = 2 + rep % 2
+        kk = 1 + rep % 3
+        c0 = ortho(kk, 2**nq)
+        ctx.set_case({'op': 'QECCEqualModel', 'n': nq, 'K': kk})
+        ctx.case('qecc-equal', nq, kk, c0)
+        with ctx.guard('QECCEqualModel'):
+            model = qec.QECCEqualModel(c0, c0 if rep % 2 else ortho(kk, 2**nq))
+            with torch.no_grad():
+                next(model.parameters()).copy_(torch.tensor(rng.normal(size=tuple(next(model.parameters()).shape))))
+            lv = float(model().detach())
+            us = to_numpy(model.manifold())
+            c1 = to_numpy(model.code1)
+            if us.shape == (nq, 2, 2):
+                rot = c0
+                for qb in range(nq):
+                    # numqi contracts the qubit axis with the FIRST index of unitary[qb]: new[.., b, ..] = sum_a old[.., a, ..] U[a, b], i.e. U^T acts
+                    rot = rq.apply_op(rot, us[qb].T, [qb])
+                ov = rot.conj() @ c1.T
+                want = float(np.sum(1 - np.linalg.norm(ov, axis=1)**2))
+                ctx.check(abs(lv - want) <= 1e-9, 'qecc-equal/loss', 'QECCEqualModel() is not sum_i (1 - sum_j |<U c0_i|c1_j>|^2) for its own local unitaries',
+                          {'n': nq, 'K': kk, 'got': lv, 'want': want})
+            else:
+                ctx.inconclusive('QECCEqualModel: local unitaries not of shape (n,2,2)')
+
+    # ---------------------------------------------------------------- (e) code descriptions: two instances, deep copies
+    ctx.workload('realistic')
+    for tag in ['422', '523', '442'] + (['642', '883'] if ctx.tier == 'thorough' else []):
+        spec = CODES[tag]
+        ctx.set_case({'op': 'description lifecycle', 'code': tag})
+        ctx.case('description-lifecycle', tag)
+        with ctx.guard('lifecycle/' + tag):
+            gen = getattr(qec, spec['fn'])
+            d1 = gen()
+            d2 = gen()
+            code1 = qec.generate_code_np(d1['encode'], d1['num_logical_dim'])
+            ctx.check(d1['encode'] is not d2['encode'] and all(a is not b for a, b in zip(d1['stabilizer'], d2['stabilizer'])),
+                      'lifecycle/descriptions-share-circuits', 'two calls of generate_code*() return the same circuit objects', {'code': tag}, point=P_LIFE)
+            # extend the circuits of the FIRST description; the second one must still be the shipped code (judged by post_code_np / check_stabilizer)
+            d1['encode'].X(0)
+            d1['encode'].H(spec['n'] - 1)
+            for circ in d1['stabilizer']:
+                circ.Z(0)
+            code2 = qec.generate_code_np(d2['encode'], d2['num_logical_dim'])
+            qec.check_stabilizer(d2['stabilizer'], code2)
+            ctx.close(code2, code1, 1e-12, 'lifecycle/second-description-changed-by-first', 'code words of a second generate_code*() description changed after the '
+                      'circuits of the first description were extended', {'code': tag}, point=P_LIFE)
+            d3 = copy.deepcopy(d2)
+            d4 = gen()
+            code3 = qec.generate_code_np(d3['encode'], d3['num_logical_dim'])
+            ctx.close(code3, code1, 1e-12, 'lifecycle/deepcopy-description-differs', 'code words from a deep copy of the description differ', {'code': tag}, point=P_LIFE)
+            listed = [mon.listed_of.get(id(c)) for c in d2['stabilizer']]
+            if all(x is not None for x in listed) and len(d3['stabilizer']) == len(listed):
+                for circ, letters in zip(d3['stabilizer'], listed):
+                    mon.keep.append(circ)
+                    mon.listed_of[id(circ)] = letters
+                    mon.check_circuit(letters, letters, circ)
+                qec.check_stabilizer(d3['stabilizer'], code3)
+                qec.check_stabilizer(d3['stabilizer'], [x for x in code3])  # code given as a list of vectors
+            code4 = qec.generate_code_np(d4['encode'], d4['num_logical_dim'])
+            ctx.close(code4, code1, 1e-12, 'lifecycle/later-description-differs', 'a description generated after earlier ones were modified / copied gives other code words',
+                      {'code': tag}, point=P_LIFE)
+    ctx.sample({'op': 'secondary', 'entry_points': ['parse_str_qecc', 'knill_laflamme_loss', 'degeneracy', 'hf_split_element', 'VarQEC.get_code',
+                                                   'VarQECUnitary.get_code', 'QECCEqualModel', 'quantum_weight_enumerator(use_tqdm)'],
+                'regimes': 'states scaled by 1e-100..1e6, operators by 1e-9..1e7, Z-weights next to 1, 1.5, 2 and non-dyadic, angles up to |20| and ~1e-7'})
+
+
 def run_repo_tests(ctx, numqi):
     ctx.workload('repo-tests')
     path = os.path.join(os.path.dirname(os.path.realpath(os.environ.get('NUMQI_SRC', '/repo/python'))), 'tests', 'test_qec.py')
@@ -961,5 +1459,7 @@ def run(ctx, shard):
         run_repo_tests(ctx, numqi)
     elif name == 'sequence':
         run_sequence(ctx, numqi, mon)
+    elif name == 'secondary':
+        run_secondary(ctx, numqi, torch, mon, shard)
     else:
         raise ValueError(f'unknown shard {name}')
